@@ -1,14 +1,18 @@
 """Canonicaliser: maps an object graph of black-it objects to nested tuples / a digest.
 
-Dropped fields, with the argument that states merged by dropping them have the same futures:
-  _xg_regressor, _classifier, _gpmodel, _fmin   fitted-model caches, overwritten by fit() before every use
-  _agent_thread, _in_queue, _out_queue           live thread handle / queues (empty between sessions, checked by C10)
-  _prime_number_generator                        pure cache of the prime sieve (its answers do not depend on its state, C13)
+Dropped / abstracted, with the argument that states merged this way have the same futures:
+  fitted third-party models (sklearn / xgboost objects, by type; also the names _xg_regressor, _classifier, _gpmodel, _fmin):
+      caches overwritten by fit() before every use
+  queue.Queue / threading.Thread / locks (by type; also the names _agent_thread, _in_queue, _out_queue): a queue counts through its
+      contents only, a thread through is_alive(); both are empty / dead between sessions (checked by C10)
+  _prime_number_generator and any attribute holding only a prime table: pure cache (its answers do not depend on its state, C13)
 Absolute scratch paths are normalised by the caller (saving_folder is compared separately).
 """
 from __future__ import annotations
 
 import hashlib
+import queue as _queue
+import threading as _threading
 import types
 
 import numpy as np
@@ -41,6 +45,20 @@ def canon(x, drop=DROP, _depth=0):
         return ("l", tuple(canon(v, drop, _depth + 1) for v in x))
     if isinstance(x, (set, frozenset)):
         return ("s", tuple(sorted((canon(v, drop, _depth + 1) for v in x), key=repr)))
+    # live concurrency objects and fitted third-party models are recognised by TYPE, not by attribute name (a refactor may rename them)
+    tname = type(x).__module__ + "." + type(x).__qualname__
+    if isinstance(x, (_queue.Queue, _queue.SimpleQueue)) or tname.endswith("vthreads.VQueue"):
+        try:
+            items = list(x.queue) if hasattr(x, "queue") else list(getattr(x, "items", []))
+        except Exception:  # noqa: BLE001
+            items = []
+        return ("queue", canon(items, drop, _depth + 1))
+    if isinstance(x, _threading.Thread) or tname.endswith("vthreads.VThread"):
+        return ("thread", bool(x.is_alive()))
+    if tname.startswith(("_thread.", "threading.")):
+        return ("sync", type(x).__name__)
+    if tname.startswith(("sklearn.", "xgboost.", "scipy.")):
+        return ("third-party-model", tname)
     if isinstance(x, (types.FunctionType, types.BuiltinFunctionType, types.MethodType)):
         return ("fn", getattr(x, "__module__", "?"), getattr(x, "__qualname__", repr(x)))
     if isinstance(x, type):
